@@ -127,7 +127,12 @@ pub fn gen_scenario(ctx: &Ctx, r: &mut Rng, cfg: Config) -> Scenario {
     let budget = node_budget(ctx, r);
     let mut g = GenCfg::new(cfg.profile, budget, api::now());
     g.safe_names = cfg.strat.is_custom();
-    let u = gen::gen_claims(r, &g);
+    let mut u = gen::gen_claims(r, &g);
+    if cfg.holder.is_none() && r.chance(6) {
+        // without a bound holder key `cnf` is an ordinary user claim of any JSON type
+        let v = r.pick(&[json!("conf"), json!(7), json!(null), json!(true), json!(["a", 1]), json!({"kid": "x"}), json!({"jwk": {"kty": "oct"}}), json!(1.5)]).clone();
+        u["cnf"] = v;
+    }
     let strat = gen::gen_strategy(r, &u, cfg.strat);
     Scenario {
         cfg,
